@@ -456,4 +456,415 @@ Section IngestProofs.
         * apply (base_entry_spec fl names names f f raw); intros e He; apply (Hnode _ e He).
         * apply (base_entry_spec fl names names f f raw); intros e He; apply (Hnode _ e He).
   Qed.
+
+  (** ** The specification, with the defective combination excluded *)
+
+  Lemma spec_base_unweighted fl rn cn raw i j :
+    weighted fl = false ->
+    (spec_base ideqb as_int fl rn cn raw i j = 0%Z \/ spec_base ideqb as_int fl rn cn raw i j = 1%Z) /\
+    (spec_base ideqb as_int fl rn cn raw i j = 1%Z ->
+     exists e : edge, In e raw /\ is_node rn i (esrc e) = true /\ is_node cn j (edst e) = true /\ ew e <> 0%Z).
+  Proof.
+    intros W. unfold spec_base. rewrite W.
+    set (ws := if sum_duplicates fl then listed ideqb as_int rn cn raw i j
+               else firstn 1 (listed ideqb as_int rn cn raw i j)).
+    destruct (existsb (fun w => negb (w =? 0)%Z) ws) eqn:E; split; auto; try discriminate.
+    intros _. apply existsb_exists in E as [w [Hw Hnz]].
+    assert (Hl : In w (listed ideqb as_int rn cn raw i j)).
+    { unfold ws in Hw. destruct (sum_duplicates fl); [exact Hw|apply firstn1_In; exact Hw]. }
+    unfold listed in Hl. apply in_map_iff in Hl as [e [<- He]]. apply filter_In in He as [He HP].
+    apply andb_true_iff in HP as [H1 H2]. exists e. repeat split; try assumption.
+    destruct (Z.eqb_spec (ew e) 0) as [Z0|Z0]; [discriminate|exact Z0].
+  Qed.
+
+  Lemma from_edge_array_biadj fl edge_array weights d :
+    from_edge_array ideqb as_int unique fl edge_array weights = Some d -> d_biadj d = bipartite fl.
+  Proof.
+    unfold from_edge_array.
+    destruct (negb _); [discriminate|]. destruct (length edge_array =? 0); [discriminate|]. cbv zeta.
+    destruct (bipartite fl).
+    - destruct (index_side _ _ _ _ _) as [[? ?] ?]. destruct (index_side _ _ _ _ _) as [[? ?] ?].
+      intros H. inversion H. reflexivity.
+    - destruct (index_side _ _ _ _ _) as [[? ?] ?]. intros H. inversion H. reflexivity.
+  Qed.
+
+  Theorem from_edge_array_entry fl edge_array weights d :
+    from_edge_array ideqb as_int unique fl edge_array weights = Some d ->
+    (weighted fl = true \/ directed fl = true \/ bipartite fl = true \/
+     has_reciprocal ideqb (raw_edges edge_array weights) = false) ->
+    forall i j, entry (d_matrix d) i j =
+                spec_entry ideqb as_int fl (row_names d) (col_names d) (raw_edges edge_array weights) i j.
+  Proof.
+    intros H Hex i j. rewrite (from_edge_array_coded _ _ _ _ H).
+    unfold coded_entry, spec_entry.
+    destruct (bipartite fl || directed fl) eqn:BD; [reflexivity|].
+    destruct (weighted fl) eqn:W; [reflexivity|].
+    apply orb_false_iff in BD as [Bip Dir].
+    destruct Hex as [Hex|[Hex|[Hex|Hex]]]; try congruence.
+    pose proof (from_edge_array_biadj _ _ _ _ H) as Hb. rewrite Bip in Hb.
+    unfold row_names, col_names. rewrite Hb.
+    set (raw := raw_edges edge_array weights) in *.
+    destruct (spec_base_unweighted fl (d_names d) (d_names d) raw i j W) as [Ha Ha1].
+    destruct (spec_base_unweighted fl (d_names d) (d_names d) raw j i W) as [Hb0 Hb1].
+    destruct Ha as [Ha|Ha]; destruct Hb0 as [Hb0|Hb0]; rewrite ?Ha, ?Hb0; try reflexivity.
+    exfalso. destruct (Ha1 Ha) as [e [He [E1 [E2 E3]]]]. destruct (Hb1 Hb0) as [e' [He' [F1 [F2 F3]]]].
+    assert (R : has_reciprocal ideqb raw = true).
+    { unfold has_reciprocal. apply existsb_exists. exists e. split; [exact He|].
+      apply existsb_exists. exists e'. split; [exact He'|].
+      rewrite (is_node_inj _ _ _ _ E1 F2), (is_node_inj _ _ _ _ E2 F1), !ideqb_refl. simpl.
+      destruct (Z.eqb_spec (ew e) 0); [contradiction|]. destruct (Z.eqb_spec (ew e') 0); [contradiction|].
+      reflexivity. }
+    congruence.
+  Qed.
+
+  (** ** Names *)
+
+  Lemma in_combine_w {A B} (l : list A) (ws : list B) x :
+    length ws = length l -> In x l -> exists w, In (x, w) (combine l ws).
+  Proof.
+    revert ws. induction l as [|y t IH]; intros [|w ws] L; simpl in *; try tauto; try discriminate.
+    intros [->|H]; [exists w; left; reflexivity|].
+    destruct (IH ws (eq_add_S _ _ L) H) as [w' Hw']. exists w'. right. exact Hw'.
+  Qed.
+
+  Theorem from_edge_array_names fl edge_array weights d :
+    from_edge_array ideqb as_int unique fl edge_array weights = Some d ->
+    (forall a b, In (a, b) edge_array ->
+       exists i j, i < fst (m_shape (d_matrix d)) /\ j < snd (m_shape (d_matrix d)) /\
+                   is_node (row_names d) i a = true /\ is_node (col_names d) j b = true) /\
+    (forall ns, row_names d = Some ns ->
+       NoDup ns /\ length ns = fst (m_shape (d_matrix d)) /\
+       forall x, In x ns -> exists e, In e edge_array /\ (x = fst e \/ x = snd e)) /\
+    (forall ns, col_names d = Some ns ->
+       NoDup ns /\ length ns = snd (m_shape (d_matrix d)) /\
+       forall x, In x ns -> exists e, In e edge_array /\ (x = fst e \/ x = snd e)) /\
+    d_names d = row_names d /\
+    (reindex fl = true -> row_names d <> None /\ col_names d <> None).
+  Proof.
+    unfold from_edge_array. intros H.
+    destruct (negb (length (match weights with Some w => w | None => repeat 1%Z (length edge_array) end) =? length edge_array)) eqn:L1;
+      [discriminate|].
+    apply negb_false_iff, Nat.eqb_eq in L1.
+    destruct (length edge_array =? 0); [discriminate|].
+    cbv zeta in H. rewrite raw_typed in H. rewrite dedup_typed in H.
+    set (raw := raw_edges edge_array weights) in *.
+    set (reindexed := negb (int_dtype as_int (map (tw fl) raw)) || reindex fl) in *.
+    assert (Hre2 : reindex fl = true -> reindexed = true).
+    { intros R. unfold reindexed. rewrite R. apply orb_true_r. }
+    assert (Hint : reindexed = false -> forall e, In e (map (tw fl) (dedup fl raw)) ->
+                   is_some (as_int (esrc e)) = true /\ is_some (as_int (edst e)) = true).
+    { intros Hre e He. apply orb_false_iff in Hre as [Hre _]. apply negb_false_iff in Hre.
+      apply (int_dtype_spec _ e Hre). apply in_map_iff in He as [e0 [<- He0]].
+      apply in_map. eapply dedup_incl. exact He0. }
+    assert (Hkey : forall a b, In (a, b) edge_array ->
+                   exists e, In e (map (tw fl) (dedup fl raw)) /\ esrc e = a /\ edst e = b).
+    { intros a b Hab. destruct (in_combine_w edge_array _ (a, b) L1 Hab) as [w Hw].
+      destruct (dedup_keys fl raw _ Hw) as [e' [He' Ek]]. exists (tw fl e').
+      split; [apply in_map; exact He'|]. unfold esrc, edst. simpl. simpl in Ek. rewrite Ek. auto. }
+    assert (Hback : forall e, In e (map (tw fl) (dedup fl raw)) -> In (fst e) edge_array).
+    { intros e He. apply in_map_iff in He as [e0 [<- He0]]. simpl. apply dedup_incl in He0.
+      destruct e0 as [k w]. simpl. eapply in_combine_l. exact He0. }
+    destruct (bipartite fl) eqn:Bip.
+    - destruct (index_side as_int unique reindexed (map esrc (map (tw fl) (dedup fl raw))) (option_map fst (shape fl)))
+        as [[names_row r] n_row] eqn:IR.
+      destruct (index_side as_int unique reindexed (map edst (map (tw fl) (dedup fl raw))) (option_map snd (shape fl)))
+        as [[names_col c] n_col] eqn:IC.
+      inversion H; subst d; clear H. unfold row_names, col_names. simpl.
+      destruct (index_side_spec _ _ _ _ _ _ IR) as [fr [Er [Hfr [Hlr [Hnr Hsr]]]]].
+      { intros Hre a Ha. apply in_map_iff in Ha as [e [<- He]]. apply (Hint Hre e He). }
+      destruct (index_side_spec _ _ _ _ _ _ IC) as [fc [Ec [Hfc [Hlc [Hnc Hsc]]]]].
+      { intros Hre a Ha. apply in_map_iff in Ha as [e [<- He]]. apply (Hint Hre e He). }
+      split; [|split; [|split; [|split]]].
+      + intros a b Hab. destruct (Hkey a b Hab) as [e [He [<- <-]]].
+        assert (Ia : In (esrc e) (map esrc (map (tw fl) (dedup fl raw)))) by (apply in_map; exact He).
+        assert (Ib : In (edst e) (map edst (map (tw fl) (dedup fl raw)))) by (apply in_map; exact He).
+        exists (fr (esrc e)), (fc (edst e)). split; [apply Hlr; exact Ia|]. split; [apply Hlc; exact Ib|].
+        rewrite <- (Hfr _ _ Ia), <- (Hfc _ _ Ib), !Nat.eqb_refl. auto.
+      + intros ns Hns. destruct (Hnr ns Hns) as [N1 [N2 N3]]. split; [exact N1|]. split; [exact N2|].
+        intros x Hx. apply N3 in Hx. apply in_map_iff in Hx as [e [<- He]]. exists (fst e).
+        split; [apply Hback; exact He|left; reflexivity].
+      + intros ns Hns. destruct (Hnc ns Hns) as [N1 [N2 N3]]. split; [exact N1|]. split; [exact N2|].
+        intros x Hx. apply N3 in Hx. apply in_map_iff in Hx as [e [<- He]]. exists (fst e).
+        split; [apply Hback; exact He|right; reflexivity].
+      + reflexivity.
+      + intros R. split; [apply Hsr|apply Hsc]; apply Hre2; exact R.
+    - destruct (index_side as_int unique reindexed (ravel (map (tw fl) (dedup fl raw))) (option_map fst (shape fl)))
+        as [[names nodes] n] eqn:IN.
+      inversion H; subst d; clear H. unfold row_names, col_names. simpl.
+      destruct (index_side_spec _ _ _ _ _ _ IN) as [f [En [Hf [Hl [Hn Hs]]]]].
+      { intros Hre a Ha. apply in_ravel in Ha as [e [He [-> | ->]]]; apply (Hint Hre e He). }
+      assert (Hshape : m_shape (if directed fl
+                then {| m_shape := (n, n); m_coo := combine (unravel nodes) (map ew (map (tw fl) (dedup fl raw))); m_bool := negb (weighted fl) |}
+                else directed2undirected {| m_shape := (n, n); m_coo := combine (unravel nodes) (map ew (map (tw fl) (dedup fl raw))); m_bool := negb (weighted fl) |}) = (n, n)).
+      { destruct (directed fl); reflexivity. }
+      rewrite Hshape. simpl.
+      assert (Hnames : forall ns, names = Some ns -> NoDup ns /\ length ns = n /\
+                forall x, In x ns -> exists e, In e edge_array /\ (x = fst e \/ x = snd e)).
+      { intros ns Hns. destruct (Hn ns Hns) as [N1 [N2 N3]]. split; [exact N1|]. split; [exact N2|].
+        intros x Hx. apply N3 in Hx. apply in_ravel in Hx as [e [He Hx]]. exists (fst e).
+        split; [apply Hback; exact He|exact Hx]. }
+      split; [|split; [|split; [|split]]]; try exact Hnames.
+      + intros a b Hab. destruct (Hkey a b Hab) as [e [He [<- <-]]].
+        assert (Ia : In (esrc e) (ravel (map (tw fl) (dedup fl raw)))) by (apply in_ravel; exists e; auto).
+        assert (Ib : In (edst e) (ravel (map (tw fl) (dedup fl raw)))) by (apply in_ravel; exists e; auto).
+        exists (f (esrc e)), (f (edst e)). split; [apply Hl; exact Ia|]. split; [apply Hl; exact Ib|].
+        rewrite <- (Hf _ _ Ia), <- (Hf _ _ Ib), !Nat.eqb_refl. auto.
+      + reflexivity.
+      + intros R. split; apply Hs; apply Hre2; exact R.
+  Qed.
 End IngestProofs.
+
+(** * The reference [unique] meets the oracle contract *)
+
+Section UniqueRef.
+  Context {id : Type}.
+  Context (ideqb : id -> id -> bool) (leb : id -> id -> bool).
+  Context (ideqb_spec : forall a b, ideqb a b = true <-> a = b).
+
+  Lemma memb_In a l : memb ideqb a l = true <-> In a l.
+  Proof.
+    unfold memb. rewrite existsb_exists. split.
+    - intros [x [Hx E]]. apply ideqb_spec in E. subst. exact Hx.
+    - intros H. exists a. split; [exact H|apply ideqb_spec; reflexivity].
+  Qed.
+
+  Lemma insert_s_In x l z : In z (insert_s leb x l) <-> z = x \/ In z l.
+  Proof.
+    induction l as [|y t IH]; simpl; [intuition|].
+    destruct (leb x y); simpl; [intuition|]. rewrite IH. intuition.
+  Qed.
+
+  Lemma insert_s_NoDup x l : NoDup l -> ~ In x l -> NoDup (insert_s leb x l).
+  Proof.
+    induction l as [|y t IH]; intros Hnd Hx; simpl.
+    - constructor; [tauto|constructor].
+    - destruct (leb x y); [constructor; assumption|].
+      inversion Hnd as [|? ? Hy Ht]; subst. constructor.
+      + rewrite insert_s_In. intros [->|H]; [apply Hx; left; reflexivity|contradiction].
+      + apply IH; [exact Ht|]. intros H. apply Hx. right. exact H.
+  Qed.
+
+  Lemma sort_unique_In l z : In z (sort_unique ideqb leb l) <-> In z l.
+  Proof.
+    induction l as [|x t IH]; simpl; [tauto|]. unfold add_u.
+    destruct (memb ideqb x (sort_unique ideqb leb t)) eqn:M.
+    - rewrite IH. split; [auto|]. intros [<-|H]; [|exact H]. apply IH. apply memb_In. exact M.
+    - rewrite insert_s_In, IH. intuition.
+  Qed.
+
+  Lemma sort_unique_NoDup l : NoDup (sort_unique ideqb leb l).
+  Proof.
+    induction l as [|x t IH]; simpl; [constructor|]. unfold add_u.
+    destruct (memb ideqb x (sort_unique ideqb leb t)) eqn:M; [exact IH|].
+    apply insert_s_NoDup; [exact IH|]. intros H. apply memb_In in H. congruence.
+  Qed.
+
+  Theorem unique_ref_ok : unique_ok ideqb (unique_ref ideqb leb).
+  Proof.
+    intros l. unfold unique_ref. simpl. split; [apply sort_unique_NoDup|].
+    split; [intros x; apply sort_unique_In|reflexivity].
+  Qed.
+End UniqueRef.
+
+Lemma nat_unique_ok : unique_ok Nat.eqb nat_unique.
+Proof. apply unique_ref_ok. apply Nat.eqb_eq. Qed.
+Lemma str_unique_ok : unique_ok String.eqb str_unique.
+Proof. apply unique_ref_ok. apply String.eqb_eq. Qed.
+
+(** * Instances of the theorems *)
+
+Definition as_int_nat (k : nat) : option nat := Some k.
+Definition as_int_str (s : string) : option nat := None.
+
+Theorem edge_array_entry_nat fl edge_array weights d :
+  from_edge_list_nat fl edge_array weights = Some d ->
+  (weighted fl = true \/ directed fl = true \/ bipartite fl = true \/
+   has_reciprocal Nat.eqb (raw_edges edge_array weights) = false) ->
+  forall i j, entry (d_matrix d) i j =
+              spec_entry Nat.eqb as_int_nat fl (row_names d) (col_names d) (raw_edges edge_array weights) i j.
+Proof.
+  apply (from_edge_array_entry Nat.eqb as_int_nat nat_unique Nat.eqb_eq).
+  - intros a b k Ha Hb. unfold as_int_nat in *. congruence.
+  - exact nat_unique_ok.
+Qed.
+
+Theorem edge_array_entry_str fl edge_array weights d :
+  from_edge_list_str fl edge_array weights = Some d ->
+  (weighted fl = true \/ directed fl = true \/ bipartite fl = true \/
+   has_reciprocal String.eqb (raw_edges edge_array weights) = false) ->
+  forall i j, entry (d_matrix d) i j =
+              spec_entry String.eqb as_int_str fl (row_names d) (col_names d) (raw_edges edge_array weights) i j.
+Proof.
+  apply (from_edge_array_entry String.eqb as_int_str str_unique String.eqb_eq).
+  - intros a b k Ha. discriminate Ha.
+  - exact str_unique_ok.
+Qed.
+
+(** The coded symmetrisation adds the two directions even for an unweighted graph: a reciprocal pair
+    gets the entry 2 where the specification (binary entry) says 1. *)
+Definition d16_flags : flags :=
+  {| directed := false; bipartite := false; weighted := false; reindex := false;
+     sum_duplicates := true; shape := None; matrix_only := None |}.
+
+Theorem unweighted_undirected_binary_refuted :
+  exists (edge_array : list (nat * nat)) d i j,
+    from_edge_list_nat d16_flags edge_array None = Some d /\
+    entry (d_matrix d) i j = 2%Z /\
+    spec_entry Nat.eqb as_int_nat d16_flags (row_names d) (col_names d) (raw_edges edge_array None) i j = 1%Z.
+Proof.
+  exists [(0, 1); (1, 0)]. eexists. exists 0, 1.
+  split; [vm_compute; reflexivity|]. split; vm_compute; reflexivity.
+Qed.
+
+(** * CSV text: a file yields the rows it was written from *)
+
+Local Open Scope string_scope.
+
+Lemma contains_app c a b : contains c (a ++ b) = contains c a || contains c b.
+Proof. induction a as [|x t IH]; simpl; [reflexivity|]. rewrite IH. apply orb_assoc. Qed.
+
+Lemma contains_join c (d : ascii) l :
+  Ascii.eqb d c = false -> Forall (fun x => contains c x = false) l -> contains c (join (String d "") l) = false.
+Proof.
+  intros Hd. induction l as [|x t IH]; intros H; [reflexivity|].
+  inversion H as [|? ? Hx Ht]; subst. destruct t as [|y t']; [exact Hx|].
+  change (join (String d "") (x :: y :: t')) with (x ++ String d (join (String d "") (y :: t'))).
+  rewrite contains_app, Hx. simpl. rewrite Hd. simpl. apply IH. exact Ht.
+Qed.
+
+Lemma split_render ls :
+  Forall (fun l => contains newline l = false) ls -> split newline (render_lines ls) = (ls ++ [""])%list.
+Proof.
+  induction ls as [|l t IH]; intros H; [reflexivity|].
+  inversion H as [|? ? Hl Ht]; subst. simpl render_lines.
+  rewrite (split_app newline l _ Hl). rewrite (IH Ht). reflexivity.
+Qed.
+
+Lemma lines_of_render ls :
+  Forall (fun l => contains newline l = false) ls -> lines_of (render_lines ls) = ls.
+Proof.
+  intros H. unfold lines_of. rewrite (split_render ls H). rewrite rev_app_distr. simpl. apply rev_involutive.
+Qed.
+
+Lemma scan_data n comments D : forall hl cg rows,
+  Forall (fun l => starts_with_any comments l = false) D ->
+  fst (fst (scan n comments D hl cg rows)) = hl.
+Proof.
+  induction D as [|l t IH]; intros hl cg rows H; simpl; [reflexivity|].
+  inversion H as [|? ? Hl Ht]; subst. rewrite Hl.
+  match goal with |- context [if ?c then _ else _] => destruct c end; [reflexivity|]. apply IH. exact Ht.
+Qed.
+
+Lemma scan_header_lines n comments header D : forall hl cg,
+  Forall (fun l => starts_with_any comments l = true) header ->
+  Forall (fun l => starts_with_any comments l = false) D ->
+  fst (fst (scan n comments (header ++ D)%list hl cg [])) = hl + length header.
+Proof.
+  induction header as [|h t IH]; intros hl cg Hh HD; simpl.
+  - rewrite scan_data; [lia|exact HD].
+  - inversion Hh as [|? ? H1 H2]; subst. rewrite H1. rewrite IH; [lia|exact H2|exact HD].
+Qed.
+
+Lemma skipn_app_length {A} (a b : list A) : skipn (length a) (a ++ b)%list = b.
+Proof. induction a as [|x t IH]; simpl; [reflexivity|exact IH]. Qed.
+
+(** One row: splitting the joined fields on the delimiter gives the fields back. *)
+Theorem csv_row_join d fields :
+  fields <> [] -> Forall (fun x => contains d x = false) fields -> join (String d "") fields <> "" ->
+  csv_row d (join (String d "") fields) = fields.
+Proof.
+  intros Hne HF Hnb. unfold csv_row.
+  destruct (String.eqb_spec (join (String d "") fields) ""); [contradiction|].
+  apply split_join; assumption.
+Qed.
+
+Definition row_ok (d : ascii) (comments : list ascii) (r : list string) : Prop :=
+  r <> [] /\ Forall (fun x => contains d x = false /\ contains newline x = false) r /\
+  starts_with_any comments (join (String d "") r) = false /\ join (String d "") r <> "".
+
+(** A whole file: header comment lines, then the rows. *)
+Theorem csv_table_render n_scan d comments header rows :
+  comments <> [] -> Ascii.eqb d newline = false ->
+  Forall (fun h => starts_with_any comments h = true /\ contains newline h = false) header ->
+  Forall (row_ok d comments) rows ->
+  csv_table n_scan d comments (render_csv d header rows) = rows.
+Proof.
+  intros Hc Hd Hh Hr. unfold csv_table, render_csv. destruct comments as [|c0 cs]; [congruence|].
+  set (D := map (join (String d "")) rows).
+  assert (HL : Forall (fun l => contains newline l = false) (header ++ D)%list).
+  { apply Forall_app. split.
+    - eapply Forall_impl; [|exact Hh]. intros h [_ H]. exact H.
+    - unfold D. apply Forall_forall. intros l Hl. apply in_map_iff in Hl as [r [<- Hr']].
+      rewrite Forall_forall in Hr. destruct (Hr r Hr') as [_ [HF _]].
+      apply contains_join; [exact Hd|]. eapply Forall_impl; [|exact HF]. intros x [_ H]. exact H. }
+  rewrite (lines_of_render _ HL).
+  destruct (scan n_scan (c0 :: cs) (header ++ D)%list 0 c0 []) as [[hl cg] rws] eqn:S.
+  assert (Ehl : hl = length header).
+  { change hl with (fst (fst (hl, cg, rws))). rewrite <- S. rewrite scan_header_lines; [reflexivity| |].
+    - eapply Forall_impl; [|exact Hh]. intros h [H _]. exact H.
+    - unfold D. apply Forall_forall. intros l Hl. apply in_map_iff in Hl as [r [<- Hr']].
+      rewrite Forall_forall in Hr. destruct (Hr r Hr') as [_ [_ [H _]]]. exact H. }
+  subst hl. rewrite skipn_app_length. unfold D. rewrite map_map.
+  rewrite <- (map_id rows) at 2. apply map_ext_in. intros r Hr'.
+  rewrite Forall_forall in Hr. destruct (Hr r Hr') as [H1 [H2 [_ H4]]].
+  apply csv_row_join; [exact H1| |exact H4]. eapply Forall_impl; [|exact H2]. intros x [H _]. exact H.
+Qed.
+
+(** ** The delimiter guess *)
+
+Lemma sumn_zero l : (forall x, In x l -> x = 0) -> sumn l = 0.
+Proof.
+  induction l as [|x t IH]; intros H; simpl; [reflexivity|].
+  rewrite (H x (or_introl eq_refl)). apply IH. intros y Hy. apply H. right. exact Hy.
+Qed.
+
+Lemma sumn_pos l x : In x l -> 0 < x -> 0 < sumn l.
+Proof. induction l as [|y t IH]; simpl; [tauto|]. intros [->|H] Hx; [lia|]. specialize (IH H Hx). lia. Qed.
+
+Lemma argmax_first_only (f : ascii -> nat) (d : ascii) : 0 < f d -> forall l best,
+  (forall x, In x l -> x <> d -> f x = 0) ->
+  (best = d \/ (f best = 0 /\ In d l)) -> argmax_first f l best = d.
+Proof.
+  intros Hd. induction l as [|x t IH]; intros best Hz Hb; simpl.
+  - destruct Hb as [Hb|[_ []]]. exact Hb.
+  - assert (Hz' : forall y, In y t -> y <> d -> f y = 0) by (intros y Hy; apply Hz; right; exact Hy).
+    destruct (f best <? f x)%nat eqn:L.
+    + apply Nat.ltb_lt in L. apply IH; [exact Hz'|]. left.
+      destruct (ascii_dec x d) as [E|N]; [exact E|]. rewrite (Hz x (or_introl eq_refl) N) in L. lia.
+    + apply Nat.ltb_ge in L. apply IH; [exact Hz'|].
+      destruct Hb as [Hb|[Hb0 [E|Hin]]]; [left; exact Hb| |right; split; assumption].
+      subst x. lia.
+Qed.
+
+(** If, among the candidate delimiters, only [d] occurs in the rows (and it does occur), the guess is [d]. *)
+Theorem guess_delimiter_only delims rows d :
+  In d delims ->
+  (forall d', In d' delims -> d' <> d -> forall r, In r rows -> count_char d' r = 0) ->
+  (exists r, In r rows /\ 0 < count_char d r) ->
+  guess_delimiter delims rows = Some d.
+Proof.
+  intros Hin Hother [r0 [Hr0 Hpos]].
+  set (total := fun d0 => sumn (map (count_char d0) rows)).
+  assert (Ht0 : forall d', In d' delims -> d' <> d -> total d' = 0).
+  { intros d' H1 H2. unfold total. apply sumn_zero. intros x Hx. apply in_map_iff in Hx as [r [<- Hr]].
+    apply (Hother d' H1 H2 r Hr). }
+  assert (Htd : 0 < total d).
+  { unfold total. apply (sumn_pos _ (count_char d r0)); [apply in_map; exact Hr0|exact Hpos]. }
+  set (good := fun d0 => ((0 <? total d0)%nat && all_equal (map (count_char d0) rows))%bool).
+  assert (Hgood : forall x, In x (filter good delims) -> x = d).
+  { intros x Hx. apply filter_In in Hx as [Hx Hg]. unfold good in Hg. apply andb_true_iff in Hg as [Hg _].
+    apply Nat.ltb_lt in Hg. destruct (ascii_dec x d) as [E|N]; [exact E|]. rewrite (Ht0 x Hx N) in Hg. lia. }
+  assert (Harg : match delims with [] => None | d0 :: t => Some (argmax_first total t d0) end = Some d).
+  { destruct delims as [|d0 t]; [contradiction|]. f_equal. apply argmax_first_only; [exact Htd| |].
+    - intros x Hx. apply Ht0. right. exact Hx.
+    - destruct (ascii_dec d0 d) as [E|N]; [left; exact E|]. right. split; [apply Ht0; [left; reflexivity|exact N]|].
+      destruct Hin as [E|H]; [contradiction|exact H]. }
+  assert (G : guess_delimiter delims rows =
+              match filter good delims with
+              | [x] => Some x
+              | _ => match delims with [] => None | d0 :: t => Some (argmax_first total t d0) end
+              end) by reflexivity.
+  rewrite G.
+  destruct (filter good delims) as [|x [|y t]] eqn:F; try exact Harg.
+  f_equal. apply Hgood. left. reflexivity.
+Qed.
